@@ -1,1 +1,23 @@
-fn main(){}
+//! xv_full: engines that need the full client stack (sessions, chunk cache, reconstruction,
+//! singleflight, crash victims).
+use xvcommon::{Args, Report};
+
+mod e_session;
+mod monclient;
+mod recipes;
+
+fn main() {
+    xvcommon::quiet_panics();
+    let args = Args::parse();
+    let mut rep = Report::new();
+    let engine = args.pos(0).unwrap_or("").to_string();
+    match engine.as_str() {
+        "session" => e_session::run(&args, &mut rep),
+        "faults" => e_session::run_faults(&args, &mut rep),
+        other => {
+            eprintln!("unknown engine {other:?}");
+            std::process::exit(2);
+        },
+    }
+    rep.finish();
+}
